@@ -798,6 +798,13 @@ def prof_arena(g):
     for _ in range(g.r.randint(4, 30)):
         g.mutate('A', 'full')
         g.emit('arena A')
+        # clone / clone_from: the copies must have a partitioned arena too
+        r2 = g.r.random()
+        if r2 < 0.05:
+            g.emit('save A')
+        elif r2 < 0.12:
+            g.emit('clone A')
+            g.emit('arena A')
     # churn over a small working set
     ws = [g.pick('A', 0.3, 0.3) for _ in range(g.r.randint(2, 8))]
     for _ in range(g.r.randint(5, 40)):
